@@ -161,7 +161,12 @@ def check_filters(ctx: Ctx, case):
 
 @st.composite
 def mom_cases(draw):
-    return {"series": draw(series(min_len=8))}
+    sp = draw(series(min_len=8))
+    if draw(st.integers(0, 3)) == 0:
+        # finite series whose squares / sums overflow: the summary must still be finite
+        sp["scale"] = draw(st.sampled_from([1e155, 1e160, 1e300, 1e306]))
+        sp["off"] = 0.0
+    return {"series": sp}
 
 
 def check_moments(ctx: Ctx, case):
@@ -171,16 +176,18 @@ def check_moments(ctx: Ctx, case):
     y = build(case["series"])
     y0 = y.copy()
     ctx.count(sub, case, True, [case["series"]["shape"]])
-    with guard(ctx, "C20/exception", sub, case):
+    with guard(ctx, "C20/exception", sub, case), np.errstate(all="ignore"):
         mom = get_mom_ts_1d(y)
     if mom.shape != (18,) or not np.all(np.isfinite(mom)):
         ctx.fail("C20/moments-nonfinite", f"moment summary shape {mom.shape}, values {mom.tolist()}", sub, case)
         return
     # spot-check the four defining ones against hand formulas (full reference lives in C07)
-    if abs(mom[0] - y.sum() / len(y)) > 1e-9 * max(1.0, np.max(np.abs(y))):
+    with np.errstate(all="ignore"):
+        mean_ok = np.isfinite(y.sum()) and np.max(np.abs(y)) < 1e150
+    if mean_ok and abs(mom[0] - y.sum() / len(y)) > 1e-9 * max(1.0, np.max(np.abs(y))):
         ctx.fail("C20/moments-mean", f"first moment {mom[0]!r} is not the mean", sub, case)
         return
-    with guard(ctx, "C20/exception", sub, case):
+    with guard(ctx, "C20/exception", sub, case), np.errstate(all="ignore"):
         both = get_mom_ts(np.stack([y, y[::-1]], axis=1))
     if both.shape != (18, 2) or not np.array_equal(both[:, 0], mom):
         ctx.fail("C20/moments-columns", "get_mom_ts column 0 differs from get_mom_ts_1d of that column", sub, case)
